@@ -21,12 +21,12 @@ var propSpecs = []propSpec{
 	{
 		id: "C01",
 		runs: []runSpec{
-			{dir: "mux", entry: "ZZC01", quick: seq(0, []int{0, 1, 2, 3, 4, 5, 6, 7, 8, 9, 10, 11}, 8), thorough: seq(0, []int{0, 1, 2, 3, 4, 5, 6, 7, 8, 9, 10, 11}, 10)},
+			{dir: "mux", entry: "ZZC01", quick: seq(0, []int{0, 1, 2, 3, 4, 5, 6, 7, 8, 9, 10, 11, 12}, 8), thorough: seq(0, []int{0, 1, 2, 3, 4, 5, 6, 7, 8, 9, 10, 11, 12}, 10)},
 		},
 		covers:  []string{"404", "405", "options", "options-star", "served", "served-with-params"},
-		bounds:  "request path: every byte string of length <= 8 (all 256 byte values); method: each of GET HEAD POST OPTIONS DELETE PUT TRACE \"\" BOGUS plus every string of <= 3 free bytes; 12 route-table histories (Handle/Remove/Clean/Prefix.Clean, <= 10 operations) over literal, named, regexp, interceptor, ignored-name, endpoint and >=5-sibling shapes; interceptors digit/word/any",
+		bounds:  "request path: every byte string of length <= 8 (all 256 byte values); method: each of GET HEAD POST OPTIONS DELETE PUT TRACE \"\" BOGUS plus every string of <= 3 free bytes; 13 route-table histories (Handle/Remove/Clean/Prefix.Clean, <= 10 operations) over literal, named, regexp, interceptor, ignored-name, endpoint and >=5-sibling shapes; interceptors digit/word/any and an arbitrary user-defined interceptor (an uninterpreted predicate: the verdict holds for every pure interceptor function; a counterexample carries the function table of the model)",
 		boundsT: "as quick, request path length <= 10",
-		outside: "longer paths; route tables other than the 8 listed histories; regexp rules other than \\d+ [a-z]+ [a-c]+ \\w*; user-defined interceptor functions; patterns with braces in literal text; reconstruction of the text consumed by '-' (ignored) parameters",
+		outside: "longer paths; route tables other than the 8 listed histories; regexp rules other than \\d+ [a-z]+ [a-c]+ \\w*; interceptor functions with side effects; patterns with braces in literal text; reconstruction of the text consumed by '-' (ignored) parameters",
 		assume:  []string{"patterns are well-formed"},
 		stubs:   stdStubs,
 	},
@@ -34,13 +34,13 @@ var propSpecs = []propSpec{
 		id: "C02",
 		runs: []runSpec{
 			{dir: "mux", entry: "ZZC02",
-				quick:    []int{8, 108, 208, 308, 408, 508, 608, 708, 808, 908, 1008, 1108, 1208, 1308, 1408, 1508, 1608, 1708, 1908, 2008, 2108, 2308, 2408, 2508, 2608, 2708, 2808, 2908},
-				thorough: []int{10, 110, 210, 310, 410, 510, 610, 710, 810, 910, 1010, 1110, 1210, 1310, 1410, 1510, 1610, 1710, 1806, 1910, 2010, 2110, 2208, 2310, 2410, 2510, 2610, 2710, 2810, 2910}},
+				quick:    []int{8, 108, 208, 308, 408, 508, 608, 708, 808, 908, 1008, 1108, 1208, 1308, 1408, 1508, 1608, 1708, 1908, 2008, 2108, 2308, 2408, 2508, 2608, 2708, 2808, 2908, 3008},
+				thorough: []int{10, 110, 210, 310, 410, 510, 610, 710, 810, 910, 1010, 1110, 1210, 1310, 1410, 1510, 1610, 1710, 1806, 1910, 2010, 2110, 2208, 2310, 2410, 2510, 2610, 2710, 2810, 2910, 3010}},
 		},
 		covers:  []string{"404", "matched", "matched-with-params"},
-		bounds:  "request path: every byte string of length <= 8; 28 add-only route tables (8 selections of 3-4 patterns from a 15-pattern pool plus a 6-literal-sibling bundle, each in two registration orders; 6 tables aimed at the first-byte index with a failing indexed literal, deep literal splits, one parameter with several suffixes, endpoint vs continuing parameters); reference = a resolver over the pattern strings that never builds a tree and returns the set of admissible outcomes",
+		bounds:  "request path: every byte string of length <= 8; 29 add-only route tables (8 selections of 3-4 patterns from a 15-pattern pool plus a 6-literal-sibling bundle, each in two registration orders; 6 tables aimed at the first-byte index with a failing indexed literal, deep literal splits, one parameter with several suffixes, endpoint vs continuing parameters); reference = a resolver over the pattern strings that never builds a tree and returns the set of admissible outcomes",
 		boundsT: "as quick with request path length <= 10, plus a table with four parameter kinds among >=5 children (length <= 6) and one with the three bundled interceptors at one position (length <= 8)",
-		outside: "longer paths; other tables; regexp rules whose alphabet overlaps the first byte of the literal that follows them; user-defined interceptors; paths \"\" and \"*\"",
+		outside: "longer paths; other tables; regexp rules whose alphabet overlaps the first byte of the literal that follows them; paths \"\" and \"*\"",
 		assume:  []string{"patterns are well-formed", "method GET only (method handling is C01/C03/C08)"},
 		stubs:   stdStubs,
 	},
@@ -70,14 +70,14 @@ var propSpecs = []propSpec{
 	{
 		id: "C05",
 		runs: []runSpec{
-			{dir: "mux", entry: "ZZC05Req", quick: seq(0, []int{0, 1, 2, 3, 4, 5, 6, 7, 8, 9, 10, 11}, 8), thorough: seq(0, []int{0, 1, 2, 3, 4, 5, 6, 7, 8, 9, 10, 11}, 11)},
+			{dir: "mux", entry: "ZZC05Req", quick: seq(0, []int{0, 1, 2, 3, 4, 5, 6, 7, 8, 9, 10, 11, 12}, 8), thorough: seq(0, []int{0, 1, 2, 3, 4, 5, 6, 7, 8, 9, 10, 11, 12}, 11)},
 			{dir: "mux", entry: "ZZC05Grp", quick: []int{33}, thorough: []int{54}},
 			{dir: "mux", entry: "ZZC05Host", quick: []int{6}, thorough: []int{9}},
 			{dir: "mux", entry: "ZZC05Ver", quick: []int{6}, thorough: []int{10}},
 			{dir: "mux", entry: "ZZC05Pat", quick: []int{6}, thorough: []int{8}},
 		},
 		covers:  []string{"request", "group-request", "host-match", "version-match", "handle-registered", "handle-rejected"},
-		bounds:  "Router.ServeHTTP: path = every byte string <= 8 bytes (incl. \"\", \"*\", non-UTF-8), method = every byte string <= 4 bytes, on the 12 route-table histories of C01 (which include Remove/Clean/Prefix.Clean states); Group.ServeHTTP with Hosts, path-version, header-version and And matchers: Host <= 3 ASCII bytes, path <= 3 bytes, 5 methods, 6 Accept headers; Hosts.Match: Host <= 6 ASCII bytes on 9 domains after a Delete; path-version matcher: path <= 6 bytes; patterns: every byte string <= 6 bytes into CheckSyntax, URL, Router.URL (strict and not), Handle on an empty and on a populated router",
+		bounds:  "Router.ServeHTTP: path = every byte string <= 8 bytes (incl. \"\", \"*\", non-UTF-8), method = every byte string <= 4 bytes, on the 13 route-table histories of C01 (which include Remove/Clean/Prefix.Clean states); Group.ServeHTTP with Hosts, path-version, header-version and And matchers: Host <= 3 ASCII bytes, path <= 3 bytes, 5 methods, 6 Accept headers; Hosts.Match: Host <= 6 ASCII bytes on 9 domains after a Delete; path-version matcher: path <= 6 bytes; patterns: every byte string <= 6 bytes into CheckSyntax, URL, Router.URL (strict and not), Handle on an empty and on a populated router",
 		boundsT: "paths <= 11, Group host <= 5 / path <= 4, Hosts host <= 9, patterns <= 8 bytes",
 		outside: "longer inputs (the math.MaxInt16 segment limit is not reachable); Host bytes >= 0x80 (strings.ToLower is modelled for ASCII only); arbitrary Accept headers (mime.ParseMediaType runs natively on 6 concrete headers); panics raised by user handlers or interceptors",
 		assume:  []string{"regexp.Compile on a symbolic expression is an uninterpreted, consistent function of its bytes that never panics"},
@@ -204,11 +204,11 @@ var propSpecs = []propSpec{
 	{
 		id: "C18",
 		runs: []runSpec{
-			{dir: "mux", entry: "ZZC18", quick: append(seq(50, []int{0, 1, 2, 3, 4, 5, 6, 7, 8, 9, 10, 11}, 6), seq(0, []int{0, 1, 2, 3, 4, 5, 6, 7, 8, 9, 10, 11}, 6)...), thorough: append(seq(50, []int{0, 1, 2, 3, 4, 5, 6, 7, 8, 9, 10, 11}, 9), seq(0, []int{0, 1, 2, 3, 4, 5, 6, 7, 8, 9, 10, 11}, 9)...)},
+			{dir: "mux", entry: "ZZC18", quick: append(seq(50, []int{0, 1, 2, 3, 4, 5, 6, 7, 8, 9, 10, 11, 12}, 6), seq(0, []int{0, 1, 2, 3, 4, 5, 6, 7, 8, 9, 10, 11, 12}, 6)...), thorough: append(seq(50, []int{0, 1, 2, 3, 4, 5, 6, 7, 8, 9, 10, 11, 12}, 9), seq(0, []int{0, 1, 2, 3, 4, 5, 6, 7, 8, 9, 10, 11, 12}, 9)...)},
 			{dir: "trace", entry: "ZZC18Helper", quick: []int{0, 1, 2}, thorough: []int{0, 1, 2}},
 		},
 		covers:  []string{"trace-configured", "trace-not-configured", "dump-ok", "dump-error"},
-		bounds:  "TRACE request with every path of <= 6 bytes on the 12 table histories of C01 between two Use calls, with WithTrace (configured handler, exactly the Use middlewares with arguments TRACE/\"\"/router, no parameters, manual registration refused, TRACE in every Allow set incl. OPTIONS *) and without (404/405 per the documented resolution, TRACE registrable and then served); helper: httputil.DumpRequest nondeterministic (arbitrary error, or arbitrary dump of <= 3 bytes incl. HTML metacharacters), status 200, Content-Type read from the header snapshot taken at WriteHeader, body = html.EscapeString(dump), error passthrough, without body and with a body of undeclared and of declared length",
+		bounds:  "TRACE request with every path of <= 6 bytes on the 13 table histories of C01 between two Use calls, with WithTrace (configured handler, exactly the Use middlewares with arguments TRACE/\"\"/router, no parameters, manual registration refused, TRACE in every Allow set incl. OPTIONS *) and without (404/405 per the documented resolution, TRACE registrable and then served); helper: httputil.DumpRequest nondeterministic (arbitrary error, or arbitrary dump of <= 3 bytes incl. HTML metacharacters), status 200, Content-Type read from the header snapshot taken at WriteHeader, body = html.EscapeString(dump), error passthrough, without body and with a body of undeclared and of declared length",
 		boundsT: "paths <= 9 bytes",
 		outside: "the content of real request dumps (httputil.DumpRequest is stubbed; natively it is the real function)",
 		stubs:   append(append([]string{}, stdStubs...), "net/http/httputil.DumpRequest: arbitrary error or arbitrary <= 3 bytes, deterministic per request; html.EscapeString: byte-wise model of the five replacements"),
